@@ -4,6 +4,7 @@ from enum import Enum
 from hexital.exceptions import InvalidTimeFrame
 
 VALID_TIMEFRAME_PREFIXES = ["S", "T", "H", "D"]
+_EPOCH = datetime(1970, 1, 1)
 
 
 class TimeFrame(Enum):
@@ -47,14 +48,23 @@ def round_down_timestamp(timestamp: datetime, timeframe: timedelta) -> datetime:
     Note: This method also calls clean_timestamp, removing microseconds
     """
     timestamp = clean_timestamp(timestamp)
-    return datetime.fromtimestamp(
-        timestamp.timestamp() // timeframe.total_seconds() * timeframe.total_seconds()
-    )
+    seconds = _epoch_seconds(timestamp) // timeframe.total_seconds() * timeframe.total_seconds()
+    if timestamp.tzinfo is None:
+        return _EPOCH + timedelta(seconds=seconds)
+    return datetime.fromtimestamp(seconds, tz=timestamp.tzinfo)
 
 
 def on_timeframe(timestamp: datetime, timeframe: timedelta) -> bool:
     """Checks if timestamp is on a timeframe value"""
-    return timestamp.timestamp() % timeframe.total_seconds() == 0
+    return _epoch_seconds(timestamp) % timeframe.total_seconds() == 0
+
+
+def _epoch_seconds(timestamp: datetime) -> float:
+    """Seconds since the epoch on the timestamp's own clock. A naive timestamp is taken as
+    it is written, not through the time zone of the running process"""
+    if timestamp.tzinfo is None:
+        return (timestamp - _EPOCH).total_seconds()
+    return timestamp.timestamp()
 
 
 def clean_timestamp(timestamp: datetime) -> datetime:
